@@ -513,7 +513,7 @@ def job_contact(cls, role, mate_module, mate_elastic):
 
 def job_record(cls, d, role, mate_has_diameter=True):
     def body(c, O):
-        g, q = build(c, O, cls, check=False, **d)
+        g, q = build(c, O, cls, check=False, literal_helix=True, **d)
         if g is None:
             return
         mate = Mate(reference_diameter=(H.mkq(c, "Length", "mate_d") if mate_has_diameter else None))
